@@ -643,6 +643,38 @@ func (e *Enc) evalCall(env *Env, n CCall, cur, old *State) Val {
 		return Val{T: "(str.substr " + arg(0).T + " " + arg(1).T + " " + arg(2).T + ")", Typ: tString}
 	case "replaceAll":
 		return Val{T: "(str.replace_all " + arg(0).T + " " + arg(1).T + " " + arg(2).T + ")", Typ: tString}
+	case "fv", "fvinit":
+		// fv(f, closureFn, name): the captured cell of free variable `name` of closure value f
+		// fvinit(f, closureFn, name): its value when the closure was created (effectively final only)
+		if len(n.Args) != 3 {
+			e.evalFail(env, "%s(f, closureFunc, freeVarName)", n.Fun)
+		}
+		fval := arg(0)
+		key, err := normalizeTarget(exprTypeString(n.Args[1]), env.pkg)
+		if err != nil {
+			e.evalFail(env, "%v", err)
+		}
+		cfn := e.w.funcs[key]
+		if cfn == nil {
+			e.evalFail(env, "unknown closure function %s", key)
+		}
+		want := exprTypeString(n.Args[2])
+		for k, v := range cfn.FreeVars {
+			if v.Name() != want {
+				continue
+			}
+			if n.Fun == "fv" {
+				f := e.sc.DeclFun(fmt.Sprintf("cloFV_%s_%d", cfn.String(), k), []string{"Int"}, e.sortOf(v.Type()))
+				return Val{T: app(f, fval.T), Typ: v.Type()}
+			}
+			et, ok := effectivelyFinal(cfn, k, nil)
+			if !ok {
+				e.evalFail(env, "free variable %s of %s is assigned inside the closure", want, key)
+			}
+			g := e.sc.DeclFun(fmt.Sprintf("cloFVinit_%s_%d", cfn.String(), k), []string{"Int"}, e.sortOf(et))
+			return Val{T: app(g, fval.T), Typ: et}
+		}
+		e.evalFail(env, "%s has no free variable %s", key, want)
 	case "zero":
 		if len(n.Args) != 1 {
 			e.evalFail(env, "zero(T)")
@@ -652,6 +684,9 @@ func (e *Enc) evalCall(env *Env, n CCall, cur, old *State) Val {
 			e.evalFail(env, "unknown type %s", n.Args[0])
 		}
 		return Val{T: e.sorts.Zero(t), Typ: t}
+	case "isSentinel":
+		// dynamic type *errors.errorString (values made by errors.New)
+		return Val{T: fmt.Sprintf("(= (if_typ %s) %d)", arg(0).T, e.sorts.TypeIDNamed("*errors.errorString")), Typ: tBool}
 	case "typeOf":
 		return Val{T: "(if_typ " + arg(0).T + ")", Typ: tInt}
 	case "typeIs":
